@@ -247,16 +247,9 @@ func (s *ProxyServer) serveRead(w http.ResponseWriter, r *http.Request) {
 		return
 	}
 
-	// Lookup our database that we use for TXID tracking.
-	// If the database hasn't been created yet, just send to target.
-	db := s.store.DB(s.DBName)
-	if db == nil {
-		s.logf("proxy: %s %s: no database %q, proxying to target", r.Method, r.URL.Path, s.DBName)
-		s.proxyToTarget(w, r, false)
-		return
-	}
-
-	// Wait for database to catch up to TXID.
+	// Wait for database to catch up to TXID. The database that we use for TXID
+	// tracking may not have been created on this node yet. The client has seen
+	// it on the primary so it counts as not caught up until it arrives.
 	ticker := time.NewTicker(s.PollTXIDInterval)
 	defer ticker.Stop()
 
@@ -266,9 +259,11 @@ func (s *ProxyServer) serveRead(w http.ResponseWriter, r *http.Request) {
 	var pos ltx.Pos
 LOOP:
 	for {
-		if pos = db.Pos(); pos.TXID >= txid {
-			s.logf("proxy: %s %s: database %q at txid %s, proxying to target", r.Method, r.URL.Path, s.DBName, pos.TXID.String())
-			break LOOP
+		if db := s.store.DB(s.DBName); db != nil {
+			if pos = db.Pos(); pos.TXID >= txid {
+				s.logf("proxy: %s %s: database %q at txid %s, proxying to target", r.Method, r.URL.Path, s.DBName, pos.TXID.String())
+				break LOOP
+			}
 		}
 
 		select {
